@@ -1,8 +1,133 @@
-/- Driver handler owned by property C16: `c16 <args…>` requests. -/
+/- Driver handler owned by property C16: `c16 <args…>` requests.
+
+   `c16 facts`                               → the generated lock-scope facts
+   `c16 enum <facts> <lists> <progs>`        → every maximal schedule of the model with its
+                                               predicted observation, `|`-separated `sched:obs`
+   `c16 run <facts> <lists> <progs> <sched>` → the observation of one schedule (`invalid@k` if
+                                               step k is not enabled)
+
+   facts : `gen` (regenerated from the source) or four digits `<get><ffiGet><eq><concat>` (1 = clone under guard / `==` locks in address order / concat holds both operands)
+   lists : `L1.2.3;L;L4`        progs : threads `;`-separated, ops `,`-separated:
+           g<l>.<i> get   f<l>.<i> ffi get   p<l>.<v> push   c<a>.<b> concat   h<l>.<v> contains
+           s<l>.<i>.<j> swap   n<l> len   k<l> clone   d<l> drop   e<a>.<b> ==
+           x<l>.<v> index   y<l> is_empty   t<l> to_vec
+   sched : thread ids as digits
+   obs   : `<steps>;<end>;<results>;<lists>;<spans>`
+           steps   `,`-separated `<tid><events>~<blocked tids before the step>`,
+                   events P obtained, O outside lock, U use, S stale use, F use finished, R realloc, D free
+           end     `ok` | `dl` (deadlock)
+           results threads `/`-separated, results `,`-separated: u | o<v> | o- | b0 | b1 | n<k> | l<e.e.e> | X (stale use)
+           spans   the completed operations in completion order, `<tid>:<first step>-<last step>`
+           lists   final contents, `/`-separated (`-` = every handle dropped; nothing after a deadlock)
+-/
 import Driver.Util
+import RotoV.Model.ListConc
+import RotoV.Generated.C16Facts
 
 namespace Driver.C16
+open RotoV.ListConc
 
-def handle (_args : List String) : String := "bad-op"
+def nats (s : String) (sep : String) : Option (List Nat) :=
+  if s.isEmpty then some [] else (s.splitOn sep).mapM String.toNat?
+
+def parseOp (tok : String) : Option Op :=
+  if tok.isEmpty then none else
+  let k := tok.front
+  match k, nats (tok.drop 1).toString "." with
+  | 'g', some [l, i] => some (.get l i)
+  | 'f', some [l, i] => some (.ffiGet l i)
+  | 'p', some [l, v] => some (.push l v)
+  | 'c', some [a, b] => some (.concat a b)
+  | 'h', some [l, v] => some (.contains l v)
+  | 's', some [l, i, j] => some (.swap l i j)
+  | 'n', some [l] => some (.len l)
+  | 'k', some [l] => some (.clone l)
+  | 'd', some [l] => some (.drop l)
+  | 'e', some [a, b] => some (.eq a b)
+  | 'x', some [l, v] => some (.index l v)
+  | 'y', some [l] => some (.isEmpty l)
+  | 't', some [l] => some (.toVec l)
+  | _, _ => none
+
+def parseProgs (s : String) : Option (List (List Op)) :=
+  (s.splitOn ";").mapM fun th =>
+    if th.isEmpty then some [] else (th.splitOn ",").mapM parseOp
+
+def parseLists (s : String) : Option (List (List Nat)) :=
+  (s.splitOn ";").mapM fun l =>
+    if l.startsWith "L" then nats (l.drop 1).toString "." else none
+
+def parseFacts (s : String) : Option Facts :=
+  match s with
+  | "gen" => some RotoV.Gen.C16.facts
+  | _ =>
+    match s.toList with
+    | [g, f, e, c] =>
+      if [g, f, e, c].all (fun x => x == '0' || x == '1') then
+        some ⟨g == '1', f == '1', e == '1', c == '1'⟩
+      else none
+    | _ => none
+
+def parseSched (s : String) : Option (List Nat) :=
+  s.toList.mapM fun c => if c.isDigit then some (c.toNat - '0'.toNat) else none
+
+def showEv : Ev → String
+  | .obtained => "P" | .outside => "O" | .use => "U" | .stale => "S"
+  | .finished => "F" | .realloc => "R" | .free => "D"
+
+def dots (l : List Nat) : String := ".".intercalate (l.map toString)
+
+def showRes : Res → String
+  | .unit => "u"
+  | .opt none => "o-"
+  | .opt (some v) => s!"o{v}"
+  | .bool b => if b then "b1" else "b0"
+  | .nat n => s!"n{n}"
+  | .list l => "l" ++ dots l
+  | .uaf => "X"
+
+/-- run a schedule collecting, per step, events and the threads blocked before it -/
+def runObs (F : Facts) (n : Nat) : State → List Nat → Nat → List String → Except String (State × List String)
+  | s, [], _, acc => .ok (s, acc.reverse)
+  | s, t :: rest, k, acc =>
+    let bl := blocked F n s
+    match step F t s with
+    | none => .error s!"invalid@{k}"
+    | some s' =>
+      let evs := match s'.trace.getLast? with
+        | some (_, e) => String.join (e.map showEv)
+        | none => ""
+      runObs F n s' rest (k + 1) (s!"{t}{evs}~{String.join (bl.map toString)}" :: acc)
+
+def observe (F : Facts) (lists : List (List Nat)) (progs : List (List Op)) (sched : List Nat) : String :=
+  let n := progs.length
+  match runObs F n (init lists progs) sched 0 [] with
+  | .error e => e
+  | .ok (s, steps) =>
+    let fin := if deadlocked F n s then "dl" else "ok"
+    let res := "/".intercalate ((resultsOf s n).map fun rs => ",".intercalate (rs.map showRes))
+    let ls := if fin == "ok" then
+        "/".intercalate ((List.range lists.length).map fun l =>
+          if (s.cells l).rc = 0 then "-" else dots (abs s l)) else ""
+    let sp := ",".intercalate ((s.hist.zip s.spans).map fun (d, p) => s!"{d.tid}:{p.1}-{p.2}")
+    s!"{",".intercalate steps};{fin};{res};{ls};{sp}"
+
+def handle (args : List String) : String :=
+  match args with
+  | ["facts"] =>
+    let f := RotoV.Gen.C16.facts
+    s!"get={f.getUnderGuard} ffiGet={f.ffiGetUnderGuard} eqOrdered={f.eqOrdered} concatAtomic={f.concatAtomic}"
+  | ["enum", f, ls, ps] =>
+    match parseFacts f, parseLists ls, parseProgs ps with
+    | some F, some lists, some progs =>
+      let scheds := allSchedules F progs.length (fuelFor progs) (init lists progs)
+      "|".intercalate (scheds.map fun sc =>
+        s!"{String.join (sc.map toString)}:{observe F lists progs sc}")
+    | _, _, _ => "bad-op"
+  | ["run", f, ls, ps, sc] =>
+    match parseFacts f, parseLists ls, parseProgs ps, parseSched sc with
+    | some F, some lists, some progs, some sched => observe F lists progs sched
+    | _, _, _, _ => "bad-op"
+  | _ => "bad-op"
 
 end Driver.C16
